@@ -484,7 +484,7 @@ func TestC17_ReadAndWriteInFlight(t *testing.T) {
 		// readUntilClose keeps one frame read outstanding until the peer's Close has been delivered (earlier frames of the
 		// peer may still be queued in front of it).
 		readUntilClose := func(what string) {
-			for k := 0; k < 200 && !peerClosed && !readEOF; k++ {
+			for k, bound := 0, len(inbound)+20; k < bound && !peerClosed && !readEOF; k++ { // one read per queued frame at most
 				if readCb == nil {
 					startRead(false)
 				}
@@ -503,7 +503,7 @@ func TestC17_ReadAndWriteInFlight(t *testing.T) {
 				// the message that is too large for the reader's buffer must be the next thing the client reads: deliver
 				// whatever the peer sent before it, and leave no read in flight
 				withRead = false
-				for k := 0; k < 200 && (len(inbound) > 0 || readCb != nil) && !readEOF; k++ {
+				for k, bound := 0, 2*len(inbound)+20; k < bound && (len(inbound) > 0 || readCb != nil) && !readEOF; k++ {
 					if readCb == nil {
 						startRead(false)
 					} else if len(inbound) == 0 {
